@@ -160,6 +160,8 @@ pub struct Stats {
     pub terminal_logs: Mutex<BTreeSet<u128>>,
     pub action_counts: Mutex<std::collections::BTreeMap<String, u64>>,
     pub sample_paths: Mutex<Vec<Vec<Action>>>,
+    /// every violation key seen (known findings included)
+    pub viol_keys: Mutex<BTreeSet<String>>,
 }
 
 pub struct ConnModel {
@@ -182,6 +184,12 @@ impl ConnModel {
         let mut bad = false;
         if std::env::var("VERIF_E1_TRACE").is_ok() {
             eprintln!("trace {:?} -> viol {:?} logs {:?}", path, o.viol.iter().map(|v| &v.0).collect::<Vec<_>>(), o.logs.iter().map(|l| l.iter().map(|x| format!("{:?}", x.ret)).collect::<Vec<_>>()).collect::<Vec<_>>());
+        }
+        if !o.viol.is_empty() {
+            let mut vk = self.stats.viol_keys.lock().unwrap();
+            for (k, _) in &o.viol {
+                vk.insert(k.clone());
+            }
         }
         for (k, d) in &o.viol {
             let replay = json!({"engine": "e1", "scenario": &*self.scn, "path": path});
@@ -253,6 +261,8 @@ pub struct RunResult {
     pub action_counts: std::collections::BTreeMap<String, u64>,
     pub samples: Vec<Vec<Action>>,
     pub found: bool,
+    pub terminal_log_set: BTreeSet<u128>,
+    pub viol_keys: BTreeSet<String>,
 }
 
 pub fn explore(scn: Scenario, rep: Arc<Reporter>, threads: usize, dfs: bool, dedup: bool, cap: Option<usize>) -> Option<RunResult> {
@@ -274,7 +284,9 @@ pub fn explore(scn: Scenario, rep: Arc<Reporter>, threads: usize, dfs: bool, ded
             return None; // too big for the single-threaded phase; the caller re-runs it in parallel
         }
     }
-    let tl = stats.terminal_logs.lock().unwrap().len() as u64;
+    let tls = stats.terminal_logs.lock().unwrap().clone();
+    let vks = stats.viol_keys.lock().unwrap().clone();
+    let tl = tls.len() as u64;
     let ac = stats.action_counts.lock().unwrap().clone();
     let sp = stats.sample_paths.lock().unwrap().clone();
     Some(RunResult {
@@ -288,5 +300,7 @@ pub fn explore(scn: Scenario, rep: Arc<Reporter>, threads: usize, dfs: bool, ded
         action_counts: ac,
         samples: sp,
         found,
+        terminal_log_set: tls,
+        viol_keys: vks,
     })
 }
